@@ -38,7 +38,7 @@ REACH = [
 PLAN = {
     "quick": {"shards": 8, "cases": 2100, "timeout_s": 900, "min_evaluations": 240000,
               "min_counters": {"queries_compared": 240000, "queries_with_matches": 45000, "boolean_values_compared": 900000, "roots_queries": 30000}},
-    "thorough": {"shards": 16, "cases": 15000, "timeout_s": 3300, "min_evaluations": 3000000,
+    "thorough": {"shards": 16, "cases": 30000, "timeout_s": 3300, "min_evaluations": 3000000,
                  "min_counters": {"queries_compared": 3000000}},
 }
 NAMES = ["a", "b", "ab", "A", "c", "dir", "Dir", None, "abc"]
